@@ -42,9 +42,13 @@ type Case struct {
 	// Leavers subscribe and unsubscribe straight away, from one goroutine,
 	// and never look at their channel again: once Unsubscribe has returned
 	// they are no subscribers, and nothing may wait for them
-	Leavers int    `json:"leavers,omitempty"`
-	StopAt  string `json:"stop_at"` // idle | backlog | mid-publish
-	Procs   int    `json:"gomaxprocs"`
+	Leavers int `json:"leavers,omitempty"`
+	// RacingSubscribes: that many Subscribe calls whose own context is
+	// cancelled while they are in flight; a call that returns a channel
+	// unsubscribes it again, a call that returns nil has subscribed nothing
+	RacingSubscribes int    `json:"racing_subscribes,omitempty"`
+	StopAt           string `json:"stop_at"` // idle | backlog | mid-publish
+	Procs            int    `json:"gomaxprocs"`
 }
 
 func (c *Case) lossless() bool {
@@ -248,10 +252,25 @@ func runCase(c *Case) (string, string) {
 			return "api-blocks", "Unsubscribe (right after Subscribe) does not return"
 		}
 	}
-	if c.Leavers > 0 {
+	for i := 0; i < c.RacingSubscribes; i++ {
+		sctx, scancel := context.WithCancel(ctx)
+		got := make(chan chan int, 1)
+		go func() { got <- b.Subscribe(sctx) }()
+		vkit.Yield(i % 3)
+		scancel()
+		select {
+		case ch := <-got:
+			if ch != nil && !within(limit, func() { b.Unsubscribe(ctx, ch) }) {
+				return "api-blocks", "Unsubscribe does not return"
+			}
+		case <-time.After(limit):
+			return "api-blocks", "Subscribe has not returned after its own context was cancelled"
+		}
+	}
+	if c.Leavers > 0 || c.RacingSubscribes > 0 {
 		n := -1
 		if !vkit.Eventually(limit, func() bool { n = b.Stats(ctx).Subscriptions; return n == c.Subs }) {
-			return "ghost-subscription", fmt.Sprintf("%d subscribers subscribed and unsubscribed (each from one goroutine, in that order); %v later the broker still counts %d subscriptions, %d are left (BufferSize %d)", c.Leavers, limit, n, c.Subs, c.BufferSize)
+			return "ghost-subscription", fmt.Sprintf("%d subscribers subscribed and unsubscribed (each from one goroutine, in that order) and %d Subscribe calls were cancelled in flight (those that got a channel unsubscribed it, those that got nil have nothing to unsubscribe); %v later the broker still counts %d subscriptions, %d are left (BufferSize %d)", c.Leavers, c.RacingSubscribes, limit, n, c.Subs, c.BufferSize)
 		}
 	}
 	startReaders := func() {
@@ -464,6 +483,9 @@ func genCase(t *rapid.T) *Case {
 	}
 	if rapid.IntRange(0, 2).Draw(t, "leavers") == 0 {
 		c.Leavers = rapid.IntRange(1, 4).Draw(t, "leaversN")
+	}
+	if rapid.IntRange(0, 3).Draw(t, "racingSubscribes") == 0 {
+		c.RacingSubscribes = rapid.IntRange(50, 400).Draw(t, "racingSubscribesN")
 	}
 	nb := rapid.IntRange(1, 3).Draw(t, "bursts")
 	for i := 0; i < nb; i++ {
